@@ -47,6 +47,19 @@ H void h_ljg(double* out, const double* lam, double r, double rmin, double rcut,
   for (long k = 0; k < 5; k++) f.lam_(k) = lam[k];
   out[0] = f.CalculateF(r); out[1] = f.CalculateDF(i, r); out[2] = f.CalculateD2F(i, j, r);
 }
+// history independence: evaluate once at (lam1, r1), replace every parameter through a public setter (mode 0: setParam(k, val),
+// 1: setParam(vector), 2: Params()(k) = val, 3: setOptParam(k, val)), evaluate at (lam2, r2).  kind 0: LJ126, 1: LJG
+template <class PF> static void pot_seq(PF& f, long nl, double* out, const double* lam1, double r1, const double* lam2, double r2, long i, long j, long mode) {
+  for (long k = 0; k < nl; k++) f.setParam(k, lam1[k]);
+  volatile double sink = f.CalculateF(r1) + f.CalculateDF(i, r1) + f.CalculateD2F(i, j, r1); (void)sink;
+  if (mode == 1) { Eigen::VectorXd v(nl); for (long k = 0; k < nl; k++) v(k) = lam2[k]; f.setParam(v); }
+  else for (long k = 0; k < nl; k++) { if (mode == 0) f.setParam(k, lam2[k]); else if (mode == 2) f.Params()(k) = lam2[k]; else f.setOptParam(k, lam2[k]); }
+  out[0] = f.CalculateF(r2); out[1] = f.CalculateDF(i, r2); out[2] = f.CalculateD2F(i, j, r2);
+}
+H void h_pot_seq(long kind, double* out, const double* lam1, double r1, const double* lam2, double r2, double rmin, double rcut, long i, long j, long mode) {
+  if (kind == 0) { PotentialFunctionLJ126 f("p", rmin, rcut); pot_seq(f, 2, out, lam1, r1, lam2, r2, i, j, mode); }
+  else { PotentialFunctionLJG f("p", rmin, rcut); pot_seq(f, 5, out, lam1, r1, lam2, r2, i, j, mode); }
+}
 // cubic B-spline: nlam knots, concrete rmin/rcut (they decide the knot layout), symbolic coefficients and r
 H long h_cbspl(double* out, const double* lam, long nlam, double r, double rmin, double rcut, long i, long j) {
   try {
